@@ -112,6 +112,18 @@ def subspaces(tier):
                     yield {'fmt': f, 'recs': [[0x76, s1, n1], [0x76, s2, n2]], 'entry': None, 'opts': o}
     subs.append(('four-byte-granular-intel', quad()))
 
+    def bankcross():
+        # the 64 KiB banks of the Intel formats are banks of BYTE addresses: records of 2 and 4 bytes per address unit that reach and
+        # cross the first and the second bank limit
+        for hdr, g in ((0x70, 2), (0x76, 4)):
+            lim = 0x10000 // g
+            for f in ('Intel32', 'Intel16', 'Intel'):
+                for st in (lim - 4, lim - 1, lim, 2 * lim - 2, 3 * lim - 1):
+                    for nw in (1, 3, 9, 17):
+                        for o in ([], [['-l', '32']], [['-l', '%d' % (3 * g)]]):
+                            yield {'fmt': f, 'recs': [[hdr, st, nw]], 'entry': None, 'opts': o}
+    subs.append(('bank-limits-in-wide-units', bankcross()))
+
     def dskmico():
         # TI DSK (16-bit words, program and data memory) and Lattice Mico8 (18-bit words without addresses)
         for seg in (1, 2):
